@@ -13,7 +13,7 @@
 //     shutdown with the generation tag taken from their configuration,
 //   - an in-memory confmap provider (scheme "mem", two locations: mem:main serves the configuration
 //     of generation k at the k-th retrieval, mem:aux an empty map) that can fire change events,
-//   - real SIGHUP / SIGTERM sent to the own process (the harness keeps its own signal.Notify),
+//   - real SIGHUP / SIGTERM / SIGINT sent to the own process (the harness keeps its own signal.Notify),
 //   - Shutdown() from several goroutines, context cancellation, scripted fatal errors.
 //
 // A step is injected at its anchor: "pre" (before Run), "idle" (the collector is Running and quiet),
@@ -58,7 +58,7 @@ import (
 // ---------------------------------------------------------------- script
 
 type Inj struct {
-	K string `json:"k"`           // change | change_err | sighup | sigterm | shutdown | ctx | fatal
+	K string `json:"k"`           // change | change_err | sighup | sigterm | sigint | shutdown | ctx | fatal
 	C string `json:"c,omitempty"` // component (fatal)
 	N int    `json:"n,omitempty"` // goroutines (shutdown)
 }
@@ -256,10 +256,10 @@ func (s *session) inject(in Inj) {
 	case "ctx":
 		s.rec.add("ext", "kind", "ctx")
 		s.cancel()
-	case "sigterm", "sighup":
+	case "sigterm", "sighup", "sigint":
 		s.mu.Lock()
 		reg := s.sigReady
-		if reg && in.K == "sigterm" {
+		if reg && in.K != "sighup" {
 			s.sure = true
 		}
 		if reg && in.K == "sighup" {
@@ -358,25 +358,53 @@ func (s *session) inject(in Inj) {
 	}
 }
 
+// Signals sent to the own process are counted by one dispatcher goroutine; a sender waits until the
+// count of its signal has grown (senders of the same signal are serialised, because pending identical
+// signals coalesce).  When the harness has seen the signal, the runtime has also offered it to every
+// other channel that was registered at that time, i.e. to the collector's.
+var (
+	sigMu    sync.Mutex
+	sigCond  = sync.NewCond(&sigMu)
+	sigCount = map[os.Signal]int{}
+	sigSend  = map[string]*sync.Mutex{"sighup": {}, "sigterm": {}, "sigint": {}}
+)
+
+func sigDispatch() {
+	for sg := range sigCh {
+		sigMu.Lock()
+		sigCount[sg]++
+		sigCond.Broadcast()
+		sigMu.Unlock()
+	}
+}
+
 func (s *session) sendSignal(kind string, reg bool) {
-	sig := syscall.SIGHUP
+	var sig os.Signal = syscall.SIGHUP
 	if kind == "sigterm" {
 		sig = syscall.SIGTERM
 	}
-	// drain stale receipts
-	for {
-		select {
-		case <-sigCh:
-			continue
-		default:
-		}
-		break
+	if kind == "sigint" {
+		sig = syscall.SIGINT
 	}
+	sigSend[kind].Lock()
+	defer sigSend[kind].Unlock()
+	sigMu.Lock()
+	n0 := sigCount[sig]
+	sigMu.Unlock()
 	s.rec.add("ext", "kind", kind, "reg", reg)
-	_ = syscall.Kill(os.Getpid(), sig)
+	_ = syscall.Kill(os.Getpid(), sig.(syscall.Signal))
+	seen := make(chan struct{})
+	go func() {
+		sigMu.Lock()
+		for sigCount[sig] == n0 {
+			sigCond.Wait()
+		}
+		sigMu.Unlock()
+		close(seen)
+	}()
 	select {
-	case <-sigCh: // the runtime has dispatched it to every channel registered at that time
-	case <-time.After(5 * time.Second):
+	case <-seen:
+	case <-time.After(10 * time.Second):
 		s.rec.add("skip", "kind", kind, "why", "signal not observed by the harness")
 	}
 	time.Sleep(time.Millisecond)
@@ -723,7 +751,7 @@ func (s *session) waitQuiet() string {
 			return "stuck"
 		} else if idle > 2*time.Second && time.Since(t0) > 2*time.Second && !shortcut {
 			shortcut = true
-			if sig, _ := s.diagnose(); confirmed[sig] && strings.HasPrefix(sig, "Host.") {
+			if sig, _ := s.diagnose(); confirmed[sig] && structural(sig) {
 				return "stuck"
 			}
 		}
@@ -732,6 +760,13 @@ func (s *session) waitQuiet() string {
 }
 
 var confirmed = map[string]bool{} // hang signatures that already got the full watchdog in this process
+
+// structural: the goroutine dump alone shows that waiting longer cannot help -- a deadlock between the
+// run goroutine and a reporter, or the run goroutine parked in the select statement of Run (nothing in
+// that select depends on time)
+func structural(sig string) bool {
+	return strings.HasPrefix(sig, "Host.") || strings.HasPrefix(sig, "run goroutine blocked in otelcol.(*Collector).Run [select")
+}
 
 // waitReturn waits for Run to return.  The full watchdog applies; a hang whose goroutine dump shows a
 // structural deadlock that was already confirmed with the full bound in this process is accepted
@@ -745,7 +780,7 @@ func (s *session) waitReturn() bool {
 		case <-time.After(250 * time.Millisecond):
 		}
 		if time.Since(t0) > 2*time.Second && time.Since(t0) < 2500*time.Millisecond {
-			if sig, _ := s.diagnose(); confirmed[sig] && strings.HasPrefix(sig, "Host.") && s.rec.idleFor() > 2*time.Second {
+			if sig, _ := s.diagnose(); confirmed[sig] && structural(sig) && s.rec.idleFor() > 2*time.Second {
 				return false
 			}
 		}
@@ -753,8 +788,34 @@ func (s *session) waitReturn() bool {
 	return s.returned()
 }
 
+// hangs counts the confirmed structural hangs of this process per signature.  Once the same deadlock
+// between a fatal-error reporter and the run loop has been shown maxSameHang times, further scripts
+// that report a fatal error are not run (they are logged as skipped and the check says so): every one
+// of them costs seconds and shows the same defect again.
+var hangs = map[string]int{}
+
+const maxSameHang = 8
+
+func hasFatal(sc *Script) bool {
+	for _, st := range sc.Steps {
+		for _, in := range st.Ev {
+			if in.K == "fatal" {
+				return true
+			}
+		}
+	}
+	return false
+}
+
 func runScript(sc *Script, out *bufio.Writer, watchdog time.Duration) {
 	rec := &recorder{out: out, last: time.Now()}
+	began := time.Now()
+	if hangs["Host.NotifyComponentStatusChange blocked in chan send under the reporter mutex"] >= maxSameHang && hasFatal(sc) {
+		scb, _ := json.Marshal(sc)
+		fmt.Fprintf(out, "{\"seq\":0,\"ev\":\"reset\",\"st\":\"NoCollector\",\"id\":%q,\"script\":%s}\n", sc.ID, scb)
+		fmt.Fprintf(out, "{\"seq\":1,\"ev\":\"skipped\",\"st\":\"NoCollector\"}\n")
+		return
+	}
 	s := &session{sc: sc, rec: rec, watchdog: watchdog, open: map[string]confmap.WatcherFunc{}, comps: map[string]*comp{},
 		anch: map[string][]Step{}, fail: map[string]bool{}, fatalSeen: map[string]chan struct{}{}, expectGen: 1,
 		runDone: make(chan struct{})}
@@ -864,6 +925,7 @@ func runScript(sc *Script, out *bufio.Writer, watchdog time.Duration) {
 	if !ok {
 		sig, detail := s.diagnose()
 		confirmed[sig] = true
+		hangs[sig]++
 		rec.add("timeout", "sig", sig, "detail", detail, "waited_s", int(watchdog.Seconds()))
 		// try to get rid of it; whatever happens now is not part of the verdict
 		func() {
@@ -876,7 +938,7 @@ func runScript(sc *Script, out *bufio.Writer, watchdog time.Duration) {
 			rec.add("late_return")
 		case <-time.After(500 * time.Millisecond):
 		}
-		rec.add("end")
+		rec.add("end", "ms", time.Since(began).Milliseconds())
 		return
 	}
 	for _, st := range post {
@@ -885,7 +947,7 @@ func runScript(sc *Script, out *bufio.Writer, watchdog time.Duration) {
 	s.inject(Inj{K: "shutdown", N: 2}) // Shutdown() after Closed must be harmless
 	// late notifiers / reporters of this script get a moment to finish (they may be blocked for good)
 	time.Sleep(time.Millisecond)
-	rec.add("end")
+	rec.add("end", "ms", time.Since(began).Milliseconds())
 }
 
 func main() {
@@ -897,7 +959,8 @@ func main() {
 	if len(os.Args) > 4 {
 		wd, _ = strconv.Atoi(os.Args[4])
 	}
-	signal.Notify(sigCh, syscall.SIGHUP, syscall.SIGTERM) // never stopped: the default action cannot fire
+	signal.Notify(sigCh, syscall.SIGHUP, syscall.SIGTERM, syscall.SIGINT) // never stopped: the default action cannot fire
+	go sigDispatch()
 	in, err := os.Open(os.Args[2])
 	if err != nil {
 		fmt.Fprintln(os.Stderr, err)
